@@ -53,7 +53,7 @@ class Clock:
 
 def gen_case(r) -> Dict[str, Any]:
     tpp = r.choice([0.3, 0.5, 1, 1, 2, 3, 5, 7.5, 10, 20, 100, 500, r.uniform(0.3, 50)])
-    per = r.choice([1, 1, 2, 5, 10, 60, 600, 3600])
+    per = r.choice([1, 1, 2, 5, 10, 60, 600, 3600, 0.5, 2.5, 90000, 86400 * 2.5])     # also fractions of a second, days
     init = r.choice([0, 0, 1, tpp, tpp / 2, tpp * 3, tpp * 1.5, int(tpp), r.uniform(0, tpp)])
     mode = r.choice(MODES)
     n = r.choice([10, 30, 100, 100, 400, 2000]) if mode != "overload" else r.choice([50, 200, 1000])
@@ -258,7 +258,8 @@ def gen_client_case(r) -> Dict[str, Any]:
         outcomes = [r.choice(["ok", "http429", "http500", "timeout", "disconnect"]) for _ in range(r.randint(1, 6))]
     client = r.choice(["binance", "binance", "bitstamp", "wait"])
     cancel_after = r.choice([None, 0.137, 0.4137, 1.0137]) if client == "wait" else None
-    return {"client": client, "cancel_after": cancel_after, "tpp": tpp, "period": per, "init": init, "arrivals": arrivals,
+    poll_interval = r.choice([None, None, 0.3137, 1.0731, per / tpp + 0.00137, 2.5 * per / tpp + 0.0137]) if client == "binance" else None
+    return {"client": client, "cancel_after": cancel_after, "poll_interval": poll_interval, "tpp": tpp, "period": per, "init": init, "arrivals": arrivals,
             "outcomes": outcomes if client != "wait" else ["ok"],
             "kinds": [r.choice(["pub", "spot", "cross", "isolated"]) for _ in range(r.randint(1, 5))]}
 
@@ -323,8 +324,23 @@ def run_client_case(case: Dict[str, Any], res: ShardResult) -> None:
             except Exception:
                 failures[0] += 1      # the caller sees the failure; the request was sent all the same
 
+        poll_iv = case.get("poll_interval") if case["client"] == "binance" else None
+        t_last = [None]
+
         async def main():
+            ptask = None
+            if poll_iv:
+                # an order-book poller built with the same limiter runs next to the client's own requests
+                from basana.external.binance import order_book as bn_ob
+                from basana.core.pair import Pair
+                poller = bn_ob.PollOrderBook(Pair("BTC", "USDT"), poll_iv, session=transport, tb=lim,
+                                             config_overrides={"api": {"http": {"base_url": "http://x/"}}})
+                ptask = asyncio.ensure_future(poller.main())
             await asyncio.gather(*[one(a) for a in case["arrivals"]])
+            t_last[0] = loop.time() - t0
+            if ptask is not None:
+                ptask.cancel()
+                await asyncio.gather(ptask, return_exceptions=True)
 
         loop.run_until_complete(main())
         seen = sorted(s - t0 for s in transport.seen)
@@ -341,20 +357,37 @@ def run_client_case(case: Dict[str, Any], res: ShardResult) -> None:
     import heapq
     ca = case.get("cancel_after") if case["client"] == "wait" else None
     pending = [(at, k, True) for k, at in enumerate(case["arrivals"])]      # (time, tie-break, may give up)
+    if poll_iv:
+        pending.append((0.0, -1, "poll"))          # the poller's first request; every next one follows its own sending
     heapq.heapify(pending)
     retries = 0
+    polls = 0
     while pending:
         at, k, first = heapq.heappop(pending)
+        if first == "poll" and t_last[0] is not None and at > t_last[0] + 1e-9:
+            continue
         a = min(case["tpp"], a + (at - last) * rate)
         last = at
         a -= 1
         wait = max(0.0, -a) / rate
+        if first == "poll":
+            polls += 1
+            exp.append(at + wait)
+            heapq.heappush(pending, (at + wait + poll_iv, -1, "poll"))
+            continue
         if ca and first and wait > ca + 1e-9:
             retries += 1
             heapq.heappush(pending, (at + ca, 10 ** 6 + k, False))         # the token it took stays taken
         else:
             exp.append(at + wait)
     exp.sort()
+    if poll_iv and t_last[0] is not None:
+        # only what was sent while the client's own requests were still coming is compared (the poller is cancelled at an
+        # arbitrary instant afterwards)
+        cut = t_last[0] - 1e-6
+        exp = [e for e in exp if e <= cut]
+        seen = [s_ for s_ in seen if s_ <= cut]
+        res.count("poller_requests", polls)
     res.count("waiters_that_gave_up", gave_up[0])
     if ca and retries != gave_up[0]:
         exp = []      # the reference and the run disagree on who gave up (a boundary within float noise): not judged
